@@ -1,7 +1,7 @@
 (* C03 — property theorems (statements only; proofs live in Proofs*.v).
    All statements quantify over ALL worlds / vectors / operands, no bounds. *)
 From Coq Require Import ZArith List Bool Lia.
-From ADV Require Import C11.Model C11.Spec C03.Model C03.Spec C03.ProofsDense C03.ProofsOps.
+From ADV Require Import C11.Model C11.Spec C03.Model C03.Spec C03.ProofsDense C03.ProofsSem C03.ProofsJoint C03.ProofsOps.
 Import ListNotations.
 Open Scope Z_scope.
 
@@ -58,3 +58,129 @@ Example dense_receiver_instance :
   let w := run3 TFloat init3 [NewD [1; 0; 3]; NewS [2; 0] [5; 4] 3; SetAt (RS 0) 1 0] in
   hasd w 0 /\ vdim w (RS 0) = zlen (getd w 0) /\ vdim w (RD 0) = zlen (getd w 0) /\ nonzero_all [4; 1; 5].
 Proof. vm_compute. repeat split; try lia; repeat constructor; discriminate. Qed.
+
+(* ---- B. sparse receiver ---------------------------------------------------------
+   r.Op(a, b) for a sparse r in ANY coherent internal state (empty, stale
+   non-zero entries, explicitly stored zeros, index keys without value) and
+   operands a, b each a dense vector or ANOTHER sparse vector (again in any
+   coherent state): no panic, no fuel exhaustion, the receiver stands for the
+   element-wise result, every other vector keeps its value, and the world
+   stays coherent (G: C11's invariant for every vector, cells allocated and
+   unique, the receiver separate) so that the next operation meets the same
+   hypotheses.  [Good3 w t] = C11's WInv and WWf + the receiver shares no cell. *)
+Theorem sparse_receiver_elementwise : forall y f w t a b,
+  Good3 w t -> operand3 w t a -> operand3 w t b ->
+  let r := step3 y w (VopV f (RS t) a b) in
+  ok_out r /\ same_but_s w (fst r) t /\ G t (sw (fst r)) /\
+  abs3 (fst r) (RS t) = map2 (bop_f f) (abs3 w a) (abs3 w b).
+Proof. exact step_sparse_vopv. Qed.
+Theorem sparse_receiver_muls : forall y w t a c,
+  Good3 w t -> operand3 w t a ->
+  let r := step3 y w (VmulS (RS t) a c) in
+  ok_out r /\ same_but_s w (fst r) t /\ G t (sw (fst r)) /\
+  abs3 (fst r) (RS t) = map (fun x => x * c) (abs3 w a).
+Proof. exact step_sparse_vmuls. Qed.
+Theorem sparse_receiver_divs : forall y w t a c,
+  Good3 w t -> operand3 w t a -> c <> 0 ->
+  let r := step3 y w (VdivS (RS t) a c) in
+  ok_out r /\ same_but_s w (fst r) t /\ G t (sw (fst r)) /\
+  abs3 (fst r) (RS t) = map (fun x => Z.quot x c) (abs3 w a).
+Proof. exact step_sparse_vdivs. Qed.
+Theorem sparse_receiver_set : forall y w t a,
+  Good3 w t -> operand3 w t a ->
+  let r := step3 y w (VSet (RS t) a) in
+  ok_out r /\ same_but_s w (fst r) t /\ G t (sw (fst r)) /\
+  abs3 (fst r) (RS t) = abs3 w a.
+Proof. exact step_sparse_vset. Qed.
+
+Theorem sparse_receiver_adds : forall y w t a c,
+  Good3 w t -> operand3 w t a ->
+  let r := step3 y w (VaddS (RS t) a c) in
+  ok_out r /\ same_but_s w (fst r) t /\ G t (sw (fst r)) /\
+  abs3 (fst r) (RS t) = map (fun x => x + c) (abs3 w a).
+Proof. exact step_sparse_vadds. Qed.
+Theorem sparse_receiver_subs : forall y w t a c,
+  Good3 w t -> operand3 w t a ->
+  let r := step3 y w (VsubS (RS t) a c) in
+  ok_out r /\ same_but_s w (fst r) t /\ G t (sw (fst r)) /\
+  abs3 (fst r) (RS t) = map (fun x => x - c) (abs3 w a).
+Proof. exact step_sparse_vsubs. Qed.
+(* division: exact statement on the model's carrier (Go's truncating integer
+   division; for the float types the quotient is exact where the divisor
+   divides the dividend), the divisor non-zero at every position; without that
+   hypothesis Go gives Inf/NaN (floats) or panics (ints) — modelled in [sdiv],
+   tied by the correspondence, no theorem *)
+Theorem sparse_receiver_division : forall y w t a b,
+  Good3 w t -> operand3 w t a -> operand3 w t b -> nonzero_all (abs3 w b) ->
+  let r := step3 y w (VdivV (RS t) a b) in
+  ok_out r /\ same_but_s w (fst r) t /\ G t (sw (fst r)) /\
+  abs3 (fst r) (RS t) = map2 Z.quot (abs3 w a) (abs3 w b).
+Proof. exact step_sparse_vdivv. Qed.
+(* Equals with a sparse receiver is the point-wise predicate, for every
+   epsilon > 0 (e2 = 2 epsilon); it changes no value (Qw: the iterators only
+   remove null entries) *)
+Theorem sparse_receiver_equals : forall y w t b e2,
+  0 < e2 -> Good3 w t -> operand3 w t b ->
+  exists w', step3 y w (VEquals (RS t) b e2) =
+               (w', (K_OK, [b2z (all_close e2 (abs3 w (RS t)) (abs3 w b))])) /\
+             Qw (sw w) (sw w') /\ dn w' = dn w /\ G t (sw w').
+Proof. exact step_sparse_equals. Qed.
+(* known finding C03-EQEPS0: for epsilon = 0 the answer DOES depend on the storage *)
+Theorem equals_eps0_refuted :
+  let w := run3 TFloat init3 [NewS [] [] 1; NewD [0]] in
+  abs3 w (RS 0) = abs3 w (RD 0) /\
+  snd (step3 TFloat w (VEquals (RS 0) (RS 0) 0)) = (K_OK, [1]) /\
+  snd (step3 TFloat w (VEquals (RD 0) (RD 0) 0)) = (K_OK, [0]) /\
+  snd (step3 TFloat w (VEquals (RS 0) (RD 0) 0)) = (K_OK, [0]) /\
+  snd (step3 TFloat w (VEquals (RD 0) (RS 0) 0)) = (K_OK, [0]).
+Proof. exact equals_eps0_refuted_lemma. Qed.
+
+(* the joint iterators themselves (key lemma): from any state in which the
+   three iterators stand at "first non-zero position >= p", Next() either
+   reports the end — then receiver and both operands are zero from p on — or
+   selects an index i in [p, n) such that everything is zero on [p, i), hands
+   out exactly the operands' values at i (0 for an operand that has no entry
+   there), the receiver's cell if it has one, and leaves all three iterators
+   at "first non-zero position >= i+1"; it never changes a value (Qw: only
+   null entries are removed). *)
+Theorem joint3_next_exact : forall t n A B w j p,
+  J3 t n A B w j p ->
+  exists w' j', joint3_next w t j = Some (w', j') /\ Qw w w' /\ G t w' /\
+    ((kok j' = false /\
+      forall i, p <= i -> peek (hp w) (getv w t) i = 0 /\ A i = 0 /\ B i = 0) \/
+     (kok j' = true /\ p <= kidx j' < n /\
+      (forall i, p <= i < kidx j' -> peek (hp w) (getv w t) i = 0 /\ A i = 0 /\ B i = 0) /\
+      jval (ks2 j') = A (kidx j') /\ jval (ks3 j') = B (kidx j') /\
+      (forall l, ks1 j' = Some l -> lookup (kidx j') (vals (getv w' t)) = Some l) /\
+      (ks1 j' = None -> peek (hp w) (getv w t) (kidx j') = 0) /\
+      J3 t n A B w' j' (kidx j' + 1))).
+Proof. exact joint3_next_spec. Qed.
+(* JOINT_ITERATOR is JOINT3_ITERATOR with an empty third operand *)
+Theorem joint_is_joint3 : forall w t j, joint3_next w t (embed j) = lift_e (joint_next w t j).
+Proof. exact joint_next_embed. Qed.
+
+(* ---- C. the property: the result does not depend on the storage -----------------
+   the same operation on a dense receiver and on a sparse receiver (any prior
+   contents), with operands that stand for the same values (however stored),
+   gives element-wise equal results *)
+Theorem storage_independence_elementwise : forall y f w k t a b a' b',
+  hasd w k -> vdim w a = zlen (getd w k) -> vdim w b = zlen (getd w k) ->
+  Good3 w t -> operand3 w t a' -> operand3 w t b' ->
+  abs3 w a = abs3 w a' -> abs3 w b = abs3 w b' ->
+  abs3 (fst (step3 y w (VopV f (RD k) a b))) (RD k) =
+  abs3 (fst (step3 y w (VopV f (RS t) a' b'))) (RS t).
+Proof. exact storage_independence_lemma. Qed.
+Theorem storage_independence_division : forall y w k t a b a' b',
+  hasd w k -> vdim w a = zlen (getd w k) -> vdim w b = zlen (getd w k) ->
+  Good3 w t -> operand3 w t a' -> operand3 w t b' ->
+  abs3 w a = abs3 w a' -> abs3 w b = abs3 w b' -> nonzero_all (abs3 w b) ->
+  abs3 (fst (step3 y w (VdivV (RD k) a b))) (RD k) =
+  abs3 (fst (step3 y w (VdivV (RS t) a' b'))) (RS t).
+Proof. exact storage_independence_div_lemma. Qed.
+(* the hypotheses are satisfiable: a sparse receiver with a stale entry and a
+   stored zero, a dense and a sparse operand *)
+Example sparse_receiver_instance :
+  let w := run3 TFloat init3 [NewS [3; 0] [7; 5] 5; SetAt (RS 0) 1 0; NewD [0; 0; 2; 0; 4]; NewS [4; 2] [-4; 1] 5] in
+  operand3 w 0 (RD 0) /\ operand3 w 0 (RS 1) /\ has (sw w) 0 /\
+  abs3 (fst (step3 TFloat w (VopV Add (RS 0) (RD 0) (RS 1)))) (RS 0) = [0; 0; 3; 0; 0].
+Proof. vm_compute. repeat split; auto; try lia; discriminate. Qed.
